@@ -91,7 +91,7 @@ fn side_by_side_laws(t: &RTable, a: &Analysis, w: usize) -> Result<(), String> {
     }
     if !t.has_nested() {
         // rule / row alternation: one band per row that has content
-        let nonempty_rows = t.rows.iter().filter(|r| r.iter().any(|c| c.kind != CellKind::Empty)).count();
+        let nonempty_rows = t.rows.iter().filter(|r| r.iter().any(|c| !c.kind.renders_nothing())).count();
         if a.bands.len() != nonempty_rows || a.full_rules.len() != nonempty_rows + 1 {
             return Err(format!("{} row bands and {} rules for {} rows with content", a.bands.len(), a.full_rules.len(), nonempty_rows));
         }
